@@ -3,7 +3,8 @@
 //! Every file over {a,b} up to n lines x every hunk shape (prefix/suffix context, removed and
 //! added lines) x stated line x fuzz limit x direction is run through the real parser + apply;
 //! the verdict is checked clause by clause from the set of matching positions (computed here
-//! by brute force), accepting every reading where the statement is ambiguous.
+//! by brute force). Where the statement leaves something open (conflicts between hunks) only the clauses that do not
+//! depend on it are decided.
 use crate::util::*;
 
 /// symbols: 0='a', 1='b', 2='c' (only ever an added line)
@@ -121,38 +122,30 @@ pub struct Verdict {
     pub nontrivial: bool,
 }
 
-/// Clause-wise oracle for one hunk. `expected0`: acceptable expected positions of the *whole hunk*
-/// (stated line + previous offset, in every reading); `full`: false = only clause (1) is decidable.
+/// Clause-wise oracle for one hunk. `expected0`: expected position of the *whole hunk* (stated line of the side that is
+/// looked for, 0-based, + the offset at which the previous hunk - as a whole - went in). What is left of the hunk after
+/// trimming `pf` leading lines is expected `pf` lines further down (patch: first guess + prefix fuzz).
+/// `full`: false = only clause (1) is decidable (the hunk conflicts with the previous one, which the statement leaves open).
 pub fn judge(file: &[u8], old: &[u8], p: usize, s: usize, first_line_is_1: bool, fmax: usize, expected0: &[isize], hr: &HR, full: bool, single: bool) -> Verdict {
     let cap = fmax.min(p.max(s));
+    let exp_at = |l: &Level| -> Vec<isize> { expected0.iter().map(|e| e + l.pf as isize).collect() };
     match hr {
         HR::Applied { line, fuzz, .. } => {
             if *fuzz > cap {
                 return Verdict { violation: Some(("fuzz-above-limit".into(), format!("fuzz {} > {}", fuzz, cap))), nontrivial: true };
             }
             let l = level(file, old, p, s, *fuzz, first_line_is_1);
-            // clause 1: the trimmed old side is at the reported position (either convention)
-            let at_block = l.cands.contains(line);
-            let at_hunk = l.cands.contains(&(*line + l.pf as isize));
-            if !at_block && !at_hunk {
+            // clause 1: the trimmed old side is at the reported position
+            if !l.cands.contains(line) {
                 return Verdict { violation: Some(("applied-where-it-does-not-match".into(), format!("line {} fuzz {}", line, fuzz))), nontrivial: true };
             }
             let nontrivial = l.cands.len() > 1 || *fuzz > 0;
             if !full {
                 return Verdict { violation: None, nontrivial };
             }
-            // clause 2: nearest / anchored. expected position of the trimmed block: e or e+pf
-            let mut exp: Vec<isize> = vec![];
-            for &e in expected0 {
-                for x in [e, e + l.pf as isize] {
-                    if !exp.contains(&x) {
-                        exp.push(x);
-                    }
-                }
-            }
-            let adm = admissible(&l, &exp);
-            let chosen_ok = (at_block && adm.contains(line)) || (at_hunk && adm.contains(&(*line + l.pf as isize)));
-            if !chosen_ok {
+            // clause 2: nearest / anchored
+            let adm = admissible(&l, &exp_at(&l));
+            if !adm.contains(line) {
                 let what = match l.anchor {
                     Anchor::Start => "start-anchored-hunk-applied-elsewhere",
                     Anchor::End => "end-anchored-hunk-applied-elsewhere",
@@ -163,21 +156,13 @@ pub fn judge(file: &[u8], old: &[u8], p: usize, s: usize, first_line_is_1: bool,
             // clause 3: no lower level admits a position
             for g in 0..*fuzz {
                 let lg = level(file, old, p, s, g, first_line_is_1);
-                let mut expg: Vec<isize> = vec![];
-                for &e in expected0 {
-                    for x in [e, e + lg.pf as isize] {
-                        if !expg.contains(&x) {
-                            expg.push(x);
-                        }
-                    }
-                }
-                if !admissible(&lg, &expg).is_empty() {
+                if !admissible(&lg, &exp_at(&lg)).is_empty() {
                     return Verdict { violation: Some(("higher-fuzz-than-needed".into(), format!("used {} but level {} matches", fuzz, g))), nontrivial: true };
                 }
             }
             Verdict { violation: None, nontrivial }
         }
-        HR::Failed(reason) if reason == "NoMatchingLines" => {
+        HR::Failed(reason) if reason == "NoMatchingLines" || (single && (reason == "DeletingFileThatDoesNotMatch")) => {
             if !full {
                 return Verdict { violation: None, nontrivial: false };
             }
@@ -257,9 +242,13 @@ fn witness(txt: &[u8], fbytes: &[u8], rev: bool, fmax: usize, detail: &str, o: &
 
 /// single-hunk sweep for one shape
 fn sweep_shape(sh: &Shape, files: &[Vec<u8>], n: usize, fcap: usize, rep: &mut Report) {
-    for stated in 1..=(n + 3) {
+    // the line numbers of the two sides: equal (as diff writes them for a first hunk), and four pairs that differ, with a 1 on
+    // one side only - what ties a hunk to the start of the file is the number of the side that is looked for
+    let mut pairs: Vec<(usize, usize)> = (1..=(n + 3)).map(|x| (x, x)).collect();
+    pairs.extend_from_slice(&[(1, 3), (3, 1), (1, 2), (2, 1)]);
+    for (so, sn) in pairs {
         let mut txt = b"--- f\n+++ f\n".to_vec();
-        sh.render(stated, stated, &mut txt);
+        sh.render(so, sn, &mut txt);
         for file in files {
             let fbytes = sym_file(file);
             for fmax in 0..=fcap {
@@ -267,6 +256,10 @@ fn sweep_shape(sh: &Shape, files: &[Vec<u8>], n: usize, fcap: usize, rep: &mut R
                     rep.evaluations += 1;
                     let old = sh.old(rev);
                     let o = parse_apply(&txt, Some(&fbytes), None, rev, fmax, false);
+                    let stated = if rev { sn } else { so };
+                    if so != sn {
+                        rep.count("line-numbers-of-the-two-sides-differ");
+                    }
                     let stated0 = (stated as isize - 1).max(0);
                     let v = match &o {
                         Ok(a) if a.hunks.len() == 1 => judge(file, &old, sh.p(), sh.s(), stated <= 1, fmax, &[stated0], &a.hunks[0], true, true),
@@ -352,10 +345,11 @@ fn sweep_two(file: &[u8], second: &[Shape], n: usize, fcap: usize, rep: &mut Rep
                             }
                             // expected line of the second hunk: stated + offset of the last applied hunk, in both readings
                             let (prev, block1_end) = match &a.hunks[0] {
-                                HR::Applied { line, offset, fuzz } => {
+                                HR::Applied { line, fuzz, .. } => {
                                     let (pf1, sf1, _, _) = trims(h1.p(), h1.s(), *fuzz);
                                     let blen = h1.old(false).len() - pf1 - sf1;
-                                    (vec![*offset, *offset - pf1 as isize], *line + blen as isize)
+                                    // the offset of the hunk as a whole, from where its remaining lines were found (not the reported field)
+                                    (vec![*line - pf1 as isize - (st1 - 1)], *line + blen as isize)
                                 }
                                 _ => (vec![0], -1),
                             };
@@ -376,8 +370,8 @@ fn sweep_two(file: &[u8], second: &[Shape], n: usize, fcap: usize, rep: &mut Rep
                             if full {
                                 rep.count("second-hunk-fully-decided");
                                 // does the previous hunk's offset matter here? (would the verdict differ with offset 0)
-                                if let (HR::Applied { offset, .. }, HR::Applied { .. }) = (&a.hunks[0], &a.hunks[1]) {
-                                    if *offset != 0 && judge(file, &old2, sh.p(), sh.s(), stated <= 1, fmax, &[st0], &a.hunks[1], true, false).violation.is_some() {
+                                if let (HR::Applied { .. }, HR::Applied { .. }) = (&a.hunks[0], &a.hunks[1]) {
+                                    if prev[0] != 0 && judge(file, &old2, sh.p(), sh.s(), stated <= 1, fmax, &[st0], &a.hunks[1], true, false).violation.is_some() {
                                         rep.count("second-hunk-placement-depends-on-previous-offset");
                                     }
                                 }
@@ -479,6 +473,48 @@ fn sweep_three(file: &[u8], third: &[Shape], rep: &mut Report) {
     }
 }
 
+/// Context-free hunks whose other side is "0,0" between two real names (`diff -U0` removing or - applied in reverse - adding
+/// lines at the top of a file that stays): the parser files them under deletion/creation, yet they are hunks like any other
+/// and are looked for from their stated line.
+fn sweep_ctxfree(file: &[u8], n: usize, rep: &mut Report) {
+    let fbytes = sym_file(file);
+    for core in seqs_upto(2, 2).into_iter().filter(|c| !c.is_empty()) {
+        for stated in 1..=(n + 2) {
+            for &rev in &[false, true] {
+                let sh = if rev { Shape { pc: vec![], rc: vec![], kc: core.clone(), sc: vec![] } } else { Shape { pc: vec![], rc: core.clone(), kc: vec![], sc: vec![] } };
+                let mut txt = b"--- f\n+++ f\n".to_vec();
+                if rev {
+                    sh.render(0, stated, &mut txt);
+                } else {
+                    sh.render(stated, 0, &mut txt);
+                }
+                rep.evaluations += 1;
+                let o = parse_apply(&txt, Some(&fbytes), None, rev, 0, false);
+                let v = match &o {
+                    Ok(a) if a.hunks.len() == 1 => judge(file, &core, 0, 0, stated <= 1, 0, &[stated as isize - 1], &a.hunks[0], true, true),
+                    Ok(_) => Verdict { violation: Some(("harness".into(), "hunk count".into())), nontrivial: false },
+                    Err(ApplyErr::Panic(m)) => Verdict { violation: Some(("panic".into(), m.clone())), nontrivial: true },
+                    Err(e) => Verdict { violation: Some(("harness".into(), format!("{:?}", e))), nontrivial: false },
+                };
+                if let Ok(a) = &o {
+                    if let Some(HR::Applied { line, .. }) = a.hunks.get(0) {
+                        rep.count("context-free-hunk-with-empty-other-side-applied");
+                        if *line != 0 {
+                            rep.count("context-free-hunk-with-empty-other-side-applied-below-the-top");
+                        }
+                    }
+                }
+                if v.nontrivial {
+                    rep.nontrivial += 1;
+                }
+                if let Some((clause, detail)) = v.violation {
+                    rep.violation(&format!("{}-context-free-hunk-with-empty-other-side", clause), "wrong-placement", || witness(&txt, &fbytes, rev, 0, &format!("{}: {}", clause, detail), &o));
+                }
+            }
+        }
+    }
+}
+
 /// rqmc c02 <max file len> <max context> <max fuzz> <two-hunk max file len> [three-hunk file len]
 pub fn run(args: &[String]) {
     let t0 = std::time::Instant::now();
@@ -494,13 +530,16 @@ pub fn run(args: &[String]) {
     let n3: usize = args.get(4).and_then(|s| s.parse().ok()).unwrap_or(9);
     let files3: Vec<Vec<u8>> = seqs_exact(n3, 2);
     let nf2 = files2.len();
-    let rep = par_shards(n1 + nf2 + files3.len(), n_threads(), |i, rep| {
+    let nf3 = files3.len();
+    let rep = par_shards(n1 + nf2 + nf3 + files.len(), n_threads(), |i, rep| {
         if i < n1 {
             sweep_shape(&sh[i], &files, n, fcap, rep);
         } else if i < n1 + nf2 {
             sweep_two(&files2[i - n1], &second, n2, fcap, rep);
-        } else {
+        } else if i < n1 + nf2 + nf3 {
             sweep_three(&files3[i - n1 - nf2], &second, rep);
+        } else {
+            sweep_ctxfree(&files[i - n1 - nf2 - nf3], n, rep);
         }
     });
     let out = rep.to_json(vec![
